@@ -106,7 +106,7 @@ def c14 (inp obs : Json) : Res :=
     let (si, se, sa, sc) := run (pn == vn) sDeleg
     let spec := mkObs false si se [("applied", sa), ("predCalled", sc)]
     { agree := obs == model, specOk := obs == spec, model := model, spec := spec, nontrivial := pn == vn }
-  | "json" =>
+  | "json" | "totype" =>
     let doc := toJ (jget inp "doc")
     match doc.get? "type", doc.get? "@context" with
     | some ty, some ctx =>
